@@ -481,6 +481,33 @@ def prim_oracle(ctx, w, syn, line, ret, chunks, int_items):
                                                     "expected": want[:600].decode("latin-1"), "got": data[:600].decode("latin-1")})
 
 
+def check_print(ctx, w, line, out):
+    run = ctx.run
+    rep = {"module": w["m"]["text"][:600], "type": w["tn"], "der": w["der"][:4000], "command_line": line[:4000], "c": out[:600],
+           "asn1c_flags": "-fwide-types" if w["flag"] == "wide" else "(native types)", "body": w["plabel"]}
+    run.case(line[:200])
+    run.count("print_%s" % w["flag"])
+    segs = out.split(" | ")
+    if "DIED" in out or not segs[0].startswith("ret="):
+        run.violation("crash:print", dict(rep, what="the process died (abort, signal or sanitizer report) in the print routine of a primitive body"))
+        return
+    h = kv(segs[0])
+    xret = w["res"]["xer"][0]
+    if h["ret"] != "0" and xret >= 0:
+        run.violation("oracle:print_result", dict(rep, what="print_struct returned %s with a never-failing callback for a value BASIC-XER encodes" % h["ret"]))
+        return
+    n = min(int(h["calls"]), 600)
+    if len(segs) - 1 != n:
+        run.violation("oracle:print_result", dict(rep, what="unexpected driver output: %d fault runs for %s invocations" % (len(segs) - 1, h["calls"])))
+        return
+    for k, seg in enumerate(segs[1:]):
+        d = kv(seg)
+        run.count("print_cbfail")
+        if d.get("k") != str(k) or d.get("ret") != "-1" or d.get("calls") != str(k + 1):
+            run.violation("oracle:print_cb_failure", dict(rep, k=k, segment=seg, what="callback failing at invocation %d of the print routine: expected ret=-1 after %d invocations, got [%s]" % (k, k + 1, seg)))
+            return
+
+
 # ---------------------------------------------------------------- model side
 
 def model_script(syn, ret, chunks, uper_zero):
@@ -993,9 +1020,15 @@ def main(tier):
         ls = []
         per_type = {}
         for w in bym[m["name"]]:
-            if w["label"] in ("violating", "target", "prim") or len(w["der"]) > 2 * MAXHEX:
+            if w["label"] in ("violating", "target") or len(w["der"]) > 2 * MAXHEX:
                 continue
             key = w["tn"]
+            if w["label"] == "prim":
+                # one value per (type, kind of body): the mutations meet INTEGER_t / REAL_t / BIT_STRING_t ... bodies of both flag sets
+                key = (w["tn"], w["plabel"])
+                if per_type.get(key) or "-" in w["plabel"] or (quick and (len(per_type) + run.seed) % 2):
+                    per_type[key] = per_type.get(key, 0) + 5
+                    continue
             if w["depth"]:
                 # mutations deep inside a nested value as well as near the top
                 if w["depth"] not in (2, 5, 9, 12):
@@ -1021,7 +1054,7 @@ def main(tier):
                 pick = sorted(set([0, ns - 1, ns - 2] + rng.shuffle(pick)[:6]))
             for s in pick:
                 ls4.append("mut %s der %s %d" % (tn, der, s))
-        for tn in sorted(set(w["tn"] for w in bym[m["name"]] if w["label"] != "prim")):
+        for tn in sorted(set(w["tn"] for w in bym[m["name"]])):
             ls4.append("zero %s" % tn)
         batches4.append((m, ls4))
     outs4 = run_mods(ctx, batches4, "C07")
@@ -1029,6 +1062,20 @@ def main(tier):
         for l, o in zip(ls4, out4):
             check_battery(ctx, m, l.split()[1], l, o)
     dbg('phase4 done')
+    # ---- phase 4b: the print routines of the primitive bodies (the same body writers as XER, plainOrXER = 0): every flush of
+    # every local buffer with the callback failing at every index; never a crash, -1 after exactly k+1 invocations
+    batches5 = []
+    for m in order:
+        ls = []
+        for pi, w in enumerate(bym[m["name"]]):
+            if w["label"] == "prim" and (not quick or (pi + run.seed) % 2 == 0) and "xer" in w["res"]:
+                ls.append((w, "print7 %s der %s" % (w["tn"], w["der"])))
+        batches5.append((m, ls))
+    outs5 = run_mods(ctx, [(m, [l for _w, l in ls]) for m, ls in batches5], "C07")
+    for (m, ls), out5 in zip(batches5, outs5):
+        for (w, line), o in zip(ls, out5):
+            check_print(ctx, w, line, o)
+    dbg('phase4b done')
     # ---- phase 5: the extracted model
     if nthm:
         lines, expect = model_lines_api(api_items, rng)
